@@ -63,6 +63,8 @@ type sessCfg struct {
 	Lite       map[string]bool        `json:"lite"`
 	CheckPrio  map[string]bool        `json:"checkPrio"`
 	TCPRemote  bool                   `json:"tcpRemote"`   // x9 is known to both agents as a TCP remote candidate
+	RFilter    map[string][]string    `json:"rfilter"`     // remote addresses (symbolic) an agent's remote IP filter rejects
+	TCPActive  bool                   `json:"tcpActive"`   // a TCP-active remote candidate is signalled to both agents during set-up (it must be ignored)
 	LiteDef    map[string]bool        `json:"liteDefault"` // the lite agent keeps its default disconnected timeout (no explicit option)
 	Walk       walkCfg                `json:"walk"`
 	Tr         trCfg                  `json:"tr"`
@@ -406,6 +408,18 @@ func runSession(t *testing.T, cfg *sessCfg, job *sessJob, rng *mrand.Rand, sched
 		if !(cfg.Lite[n] && cfg.LiteDef[n]) {
 			opts = append(opts, ice.WithDisconnectedTimeout(ms(cfg.Tr.D)))
 		}
+		if len(cfg.RFilter[n]) > 0 {
+			rejected := map[string]bool{}
+			for _, x := range cfg.RFilter[n] {
+				hp, _ := netip.ParseAddrPort(symAddr[x])
+				rejected[hp.Addr().String()] = true
+			}
+			opts = append(opts, ice.WithRemoteIPFilter(func(ip net.IP) bool {
+				a, _ := netip.AddrFromSlice(ip)
+
+				return !rejected[a.Unmap().String()]
+			}))
+		}
 		if cfg.Lite[n] {
 			opts = append(opts, ice.WithICELite(true))
 		}
@@ -430,6 +444,16 @@ func runSession(t *testing.T, cfg *sessCfg, job *sessJob, rng *mrand.Rand, sched
 			if terr = ag.AddRemoteCandidate(tc); terr != nil {
 				t.Fatal(terr)
 			}
+			synctest.Wait()
+		}
+		if cfg.TCPActive {
+			hp, _ := netip.ParseAddrPort(symAddr["x9"])
+			tc, terr := ice.NewCandidateHost(&ice.CandidateHostConfig{Network: "tcp", Address: hp.Addr().String(), Port: 9,
+				Component: 1, TCPType: ice.TCPTypeActive})
+			if terr != nil {
+				t.Fatal(terr)
+			}
+			_ = ag.AddRemoteCandidate(tc)
 			synctest.Wait()
 		}
 		sd := &side{ag: ag, nomCtr: cfg.NomBase, gen: 1, rgen: 0, ufrag: map[int]string{1: u}, pwd: map[int]string{1: p}, tb: tb, tids: map[string]int{}, raw: map[int][12]byte{}}
@@ -643,6 +667,14 @@ func runSession(t *testing.T, cfg *sessCfg, job *sessJob, rng *mrand.Rand, sched
 			for _, l := range s.Locals {
 				locs = append(locs, sym(l.Addr))
 			}
+			tcpActive := 0
+			if rc, rerr := S[n].ag.GetRemoteCandidates(); rerr == nil {
+				for _, c := range rc {
+					if c.TCPType() == ice.TCPTypeActive {
+						tcpActive++
+					}
+				}
+			}
 			rems := []map[string]any{}
 			rxs := map[string]int64{}
 			for _, r := range s.Remotes {
@@ -688,7 +720,7 @@ func runSession(t *testing.T, cfg *sessCfg, job *sessJob, rng *mrand.Rand, sched
 				bs, br = S[n].conn.BytesSent(), S[n].conn.BytesReceived()
 			}
 			res[n] = map[string]any{
-				"role": s.Role, "conn": s.Conn, "locals": locs, "remotes": rems, "pairs": prs, "pend": pend, "sel": s.Sel, "selListed": s.SelListed,
+				"role": s.Role, "conn": s.Conn, "locals": locs, "remotes": rems, "pairs": prs, "pend": pend, "sel": s.Sel, "selListed": s.SelListed, "tcpActive": tcpActive,
 				"nomPair": s.NomPair, "gen": S[n].gen, "rgen": S[n].rgen, "rx": rxs, "lastNom": s.LastNom, "gath": s.Gath,
 				"cbConn": con, "cbSel": sel, "cbCand": cnd,
 				"rd": rds, "bsent": bs, "brecv": br, "selCnt": selCnt, "tally": []int{S[n].wrPk, S[n].wrBy, S[n].rdPk, S[n].rdBy},
